@@ -882,6 +882,41 @@ func genC01(tier string, rng *Rng) {
 		}
 	}
 
+	// (iv-c) HISTORIES of calls: one message object encoded, a field edited IN PLACE, encoded again; a fresh
+	// near copy (proto.Clone with one field changed): nothing a call produces may depend on earlier calls
+	for i := 0; i < 120*scale; i++ {
+		m := rng.Msg()
+		if len(m.States) == 0 {
+			m.States = []*rwp.HWCState{rng.State()}
+		}
+		st := m.States[0]
+		if len(st.HWCIDs) == 0 {
+			st.HWCIDs = []uint32{7}
+		}
+		runC01("history-first", one(m))
+		for k := 0; k < 3; k++ {
+			switch (i + k) % 5 {
+			case 0:
+				st.HWCText = &rwp.HWCText{Title: fmt.Sprintf("T%d", 10*i+k), Formatting: 7, Textline1: "L"}
+			case 1:
+				st.HWCGfx = rng.Gfx(1 + (i*7+k*171)%600)
+			case 2:
+				st.HWCMode = &rwp.HWCMode{State: rwp.HWCMode_StateE(1 + (i+k)%5)}
+			case 3:
+				if m.Command == nil {
+					m.Command = &rwp.Command{}
+				}
+				m.Command.SetCalibrationProfile = &rwp.CalibrationProfile{Json: fmt.Sprintf("{\"k\":%d}", 10*i+k)}
+			default:
+				st.HWCIDs = append(st.HWCIDs, uint32(100+k))
+			}
+			runC01("history-edited-in-place", one(m))
+			c := proto.Clone(m).(*rwp.InboundMessage)
+			c.States[0].HWCIDs = append([]uint32{uint32(200 + k)}, c.States[0].HWCIDs...)
+			runC01("history-fresh-near-copy", one(c))
+		}
+	}
+
 	// (v) random whole messages, 1-6 per call
 	for i := 0; i < 6000*scale; i++ {
 		n := 1 + rng.Intn(6)
